@@ -276,6 +276,7 @@ static inline void free_myth_thread_struct_desc(myth_running_env_t e,myth_thread
   myth_spin_unlock_body(&th->sanity_check);
 #endif
   //Add to a freelist
+  MYTH_VERIF_OWNER(e->rank, "record");
   MYTH_VERIF_DESC_REL(th);
   myth_freelist_push(&e->freelist_desc,(void*)th);
 #else
@@ -305,6 +306,7 @@ static inline void free_myth_thread_struct_stack(myth_running_env_t e,myth_threa
     //Add to a freelist
     ptr = (void**)th->stack;
     MYTH_VERIF_STACK_REL(ptr);
+    MYTH_VERIF_OWNER(e->rank, "stack");
 
     uintptr_t *blk_size = (uintptr_t*)(((uint8_t*)ptr) + sizeof(void*));
     if (*blk_size == 0) {
@@ -1165,6 +1167,7 @@ MYTH_CTX_CALLBACK void myth_entry_point_1(void *arg1,void *arg2,void *arg3)
     MYTH_VERIF_POINT(EP_CB_BEFORE_STATUS);
     MYTH_VERIF_EV(FIN_PRE, this_thread, 0);
     this_thread->status=MYTH_STATUS_FREE_READY2;
+    MYTH_VERIF_POINT(EP_CB_STATUS_PUBLISHED);
     myth_spin_unlock_body(&this_thread->lock);
     MYTH_VERIF_EV(FINISHED, this_thread, 0);
     MYTH_VERIF_POINT(EP_CB_AFTER_STATUS);
@@ -1221,6 +1224,7 @@ MYTH_CTX_CALLBACK void myth_entry_point_2(void *arg1,void *arg2,void *arg3)
     MYTH_VERIF_POINT(EP_CB_BEFORE_STATUS);
     MYTH_VERIF_EV(FIN_PRE, this_thread, 0);
     this_thread->status=MYTH_STATUS_FREE_READY2;
+    MYTH_VERIF_POINT(EP_CB_STATUS_PUBLISHED);
     myth_spin_unlock_body(&this_thread->lock);
     MYTH_VERIF_EV(FINISHED, this_thread, 0);
     MYTH_VERIF_POINT(EP_CB_AFTER_STATUS);
